@@ -12,6 +12,23 @@ from mdpax.problems.forest import Forest  # noqa: E402
 from mdpax.solvers.value_iteration import ValueIteration  # noqa: E402
 from mdpax.solvers.relative_value_iteration import RelativeValueIteration  # noqa: E402
 
+if order.startswith("readme_gamma="):
+    # README order (64-bit mode not enabled beforehand) with a discount factor that float32 cannot tell from 0 or 1: every gamma in [0,1] must
+    # give a working solver
+    from fractions import Fraction
+    gq = float(Fraction(order.split("=", 1)[1]))
+    out = []
+    for cls, kw in ((ValueIteration, {}), (ValueIteration, {"convergence_test": "max_diff"}), (RelativeValueIteration, None)):
+        if kw is None:
+            continue
+        try:
+            s_ = cls(Forest(S=3, p=0.1), gamma=gq, epsilon=1e-3, verbose=0, **kw)
+            r_ = s_.solve(3)
+            out.append("ok:%d" % int(r_.info.iteration))
+        except Exception as e:  # noqa: BLE001
+            out.append("error:" + type(e).__name__)
+    print("construct_solve=%s" % ",".join(out))
+    sys.exit(0)
 p = Forest(S=4, p=0.1)
 if order == "single_precision_solver_built_before":
     other = ValueIteration(Forest(S=3, p=0.2), gamma=0.5, epsilon=1e-2, verbose=0, jax_double_precision=False)
